@@ -89,6 +89,7 @@ const (
 
 type lcCase struct {
 	pkg, typ string
+	args     func(fn *ssa.Function, args []Value) // optional: constants for parameters
 	sc       scenario
 	// expect returns the expectation for a method, or false if the scenario does not make it invalid
 	expect func(fn *ssa.Function, hasErr bool) (lcExpect, bool)
@@ -114,7 +115,7 @@ func lifecycleCases(p *Program) []lcCase {
 	txWriteOps := []string{"Alloc", "AllocN", "CheckpointWAL", "Flush"}
 	for _, ro := range []bool{false, true} {
 		fin := finishedTxScenario(p, ro)
-		cases = append(cases, lcCase{"txfile", "Tx", fin, func(fn *ssa.Function, hasErr bool) (lcExpect, bool) {
+		cases = append(cases, lcCase{pkg: "txfile", typ: "Tx", sc: fin, expect: func(fn *ssa.Function, hasErr bool) (lcExpect, bool) {
 			if fn.Name() == "Close" {
 				return lcNoPanic, true // documented: Close on a finished tx is ignored
 			}
@@ -126,7 +127,7 @@ func lifecycleCases(p *Program) []lcCase {
 			}
 			return lcNoPanic, true
 		}})
-		cases = append(cases, lcCase{"txfile", "Page", fin, func(fn *ssa.Function, hasErr bool) (lcExpect, bool) {
+		cases = append(cases, lcCase{pkg: "txfile", typ: "Page", sc: fin, expect: func(fn *ssa.Function, hasErr bool) (lcExpect, bool) {
 			if hasErr {
 				return lcMustError, true
 			}
@@ -135,13 +136,13 @@ func lifecycleCases(p *Program) []lcCase {
 	}
 	roTx := txScenario(true, true)
 	roTx.name = "tx-readonly"
-	cases = append(cases, lcCase{"txfile", "Tx", roTx, func(fn *ssa.Function, hasErr bool) (lcExpect, bool) {
+	cases = append(cases, lcCase{pkg: "txfile", typ: "Tx", sc: roTx, expect: func(fn *ssa.Function, hasErr bool) (lcExpect, bool) {
 		if nameIn(fn.Name(), txWriteOps...) {
 			return lcMustError, true
 		}
 		return 0, false
 	}})
-	cases = append(cases, lcCase{"txfile", "Page", roTx, func(fn *ssa.Function, hasErr bool) (lcExpect, bool) {
+	cases = append(cases, lcCase{pkg: "txfile", typ: "Page", sc: roTx, expect: func(fn *ssa.Function, hasErr bool) (lcExpect, bool) {
 		if nameIn(fn.Name(), pageWriteOps...) {
 			return lcMustError, true
 		}
@@ -151,7 +152,7 @@ func lifecycleCases(p *Program) []lcCase {
 		sc := txScenario(false, true)
 		sc.name = "page-" + flag
 		sc.consts["txfile.Page.flags."+flag] = constBool(true)
-		cases = append(cases, lcCase{"txfile", "Page", sc, func(fn *ssa.Function, hasErr bool) (lcExpect, bool) {
+		cases = append(cases, lcCase{pkg: "txfile", typ: "Page", sc: sc, expect: func(fn *ssa.Function, hasErr bool) (lcExpect, bool) {
 			if nameIn(fn.Name(), pageWriteOps...) {
 				return lcMustError, true
 			}
@@ -163,7 +164,7 @@ func lifecycleCases(p *Program) []lcCase {
 	dirty.consts["txfile.Page.flags.dirty"] = constBool(true)
 	dirty.consts["txfile.Page.flags.freed"] = constBool(false)
 	dirty.consts["txfile.Page.flags.flushed"] = constBool(false)
-	cases = append(cases, lcCase{"txfile", "Page", dirty, func(fn *ssa.Function, hasErr bool) (lcExpect, bool) {
+	cases = append(cases, lcCase{pkg: "txfile", typ: "Page", sc: dirty, expect: func(fn *ssa.Function, hasErr bool) (lcExpect, bool) {
 		if fn.Name() == "Free" {
 			return lcMustError, true
 		}
@@ -174,7 +175,7 @@ func lifecycleCases(p *Program) []lcCase {
 	fresh.name = "page-new-without-buffer"
 	fresh.consts["txfile.Page.flags.new"] = constBool(true)
 	fresh.consts["txfile.Page.bytes"] = NilV{true}
-	cases = append(cases, lcCase{"txfile", "Page", fresh, func(fn *ssa.Function, hasErr bool) (lcExpect, bool) {
+	cases = append(cases, lcCase{pkg: "txfile", typ: "Page", sc: fresh, expect: func(fn *ssa.Function, hasErr bool) (lcExpect, bool) {
 		if fn.Name() == "Bytes" {
 			return lcMustError, true
 		}
@@ -183,21 +184,21 @@ func lifecycleCases(p *Program) []lcCase {
 
 	// ---- pq ----
 	wClosed := scenario{name: "writer-closed", consts: map[string]Value{"pq.Writer.active": constBool(false), "pq.Writer.state.buf": NilV{true}}}
-	cases = append(cases, lcCase{"pq", "Writer", wClosed, func(fn *ssa.Function, hasErr bool) (lcExpect, bool) {
+	cases = append(cases, lcCase{pkg: "pq", typ: "Writer", sc: wClosed, expect: func(fn *ssa.Function, hasErr bool) (lcExpect, bool) {
 		if hasErr {
 			return lcMustError, true
 		}
 		return lcNoPanic, true
 	}})
 	rClosed := scenario{name: "reader-closed", consts: map[string]Value{"pq.Reader.active": constBool(false)}}
-	cases = append(cases, lcCase{"pq", "Reader", rClosed, func(fn *ssa.Function, hasErr bool) (lcExpect, bool) {
+	cases = append(cases, lcCase{pkg: "pq", typ: "Reader", sc: rClosed, expect: func(fn *ssa.Function, hasErr bool) (lcExpect, bool) {
 		if hasErr {
 			return lcMustError, true
 		}
 		return lcNoPanicEffectsOK, true // Done() on a closed reader may still close its transaction
 	}})
 	rNoTx := scenario{name: "reader-without-tx", consts: map[string]Value{"pq.Reader.active": constBool(true), "pq.Reader.tx": NilV{true}}}
-	cases = append(cases, lcCase{"pq", "Reader", rNoTx, func(fn *ssa.Function, hasErr bool) (lcExpect, bool) {
+	cases = append(cases, lcCase{pkg: "pq", typ: "Reader", sc: rNoTx, expect: func(fn *ssa.Function, hasErr bool) (lcExpect, bool) {
 		if fn.Name() == "Begin" {
 			return 0, false
 		}
@@ -206,13 +207,38 @@ func lifecycleCases(p *Program) []lcCase {
 		}
 		return lcNoPanic, true
 	}})
+	// queue closed before any handle was created: the lazy getters must not hand out live handles
+	qClosed := scenario{name: "queue-closed", consts: map[string]Value{"pq.Queue.closed": constBool(true),
+		"pq.Queue.reader": NilV{true}, "pq.Queue.writer": NilV{true}, "pq.Queue.acker": NilV{true}}}
+	cases = append(cases, lcCase{pkg: "pq", typ: "Queue", sc: qClosed,
+		args: func(fn *ssa.Function, args []Value) {
+			if fn.Name() == "ACK" && len(args) > 1 {
+				args[1] = constInt(1) // ACK(0) is a documented no-op
+			}
+		},
+		expect: func(fn *ssa.Function, hasErr bool) (lcExpect, bool) {
+			switch fn.Name() {
+			case "Writer", "ACK":
+				return lcMustError, true
+			case "Reader":
+				return lcNoPanic, true
+			}
+			return 0, false
+		}})
 	return cases
 }
 
-func ruleLIFECYCLE(p *Program, rep *Report) {
-	rep.Rule("LIFECYCLE", 60, "method × lifecycle-state matrix under scenario constants: invalid calls return a non-nil error, never reach a definite nil dereference, and have no lock/writer/shared-state effect (engine A)")
+func ruleLIFECYCLE(p *Program, rep *Report, only string) {
+	floor := 60
+	if only != "" {
+		floor = 20
+	}
+	rep.Rule("LIFECYCLE", floor, "method × lifecycle-state matrix under scenario constants: invalid calls return a non-nil error, never reach a definite nil dereference, and have no lock/writer/shared-state effect (engine A)")
 	effFns := lifecycleEffectFns(p)
 	for _, c := range lifecycleCases(p) {
+		if only != "" && !strings.Contains(c.sc.name, only) {
+			continue
+		}
 		for _, fn := range methodsOf(p, c.pkg, c.typ, true) {
 			exp, ok := c.expect(fn, hasErrResult(fn))
 			if !ok {
@@ -248,6 +274,9 @@ func runLifecycleCase(p *Program, rep *Report, effFns map[*ssa.Function]string, 
 		st := newState(noProp{})
 		in.applyScenario(st, c.sc)
 		args := recvArgs(in, fn, PtrV{cell: in.singleton(p.Named(c.pkg, c.typ))})
+		if c.args != nil {
+			c.args(fn, args)
+		}
 		exits = in.Run(fn, args, st)
 		failed = in.failed
 	}()
